@@ -40,6 +40,10 @@ def fault_points(execution: Dict[str, Any], target: Dict[str, Any]) -> List[Dict
             pts.append({"type": "open", "path": ev["path"], "open_k": ev.get("open_k"), "cls": ev.get("mode")})
         elif ev.get("ev") == "fs_op":
             pts.append({"type": "fsop", "path": ev["path"], "fsop": ev["fsop"], "call": ev.get("call")})
+        elif ev.get("ev") == "alloc_site" and (("dump" in ev.get("site", "")) == (mode == "w")):
+            # (a writer's own allocation sites are the serialising ones; parsing calls inside a writer's operation are
+            # the harness reading the result back through the tool's reader)
+            pts.append({"type": "alloc", "path": "@alloc", "site": ev["site"], "call": ev.get("call")})
     return pts
 
 
@@ -50,6 +54,10 @@ def expand(points: List[Dict[str, Any]], kinds: List[str]) -> List[Tuple[Dict[st
             out.append((p, "open_eacces"))
         elif p.get("type") == "fsop":
             out.extend((p, k) for k in ("fsop_fail", "kill_before_fsop", "kill_after_fsop"))
+            if p.get("fsop") in ("replace", "rename", "move"):
+                out.append((p, "fsop_exdev"))   # source and destination on different file systems
+        elif p.get("type") == "alloc":
+            out.append((p, "alloc_fail"))
         else:
             out.extend((p, k) for k in kinds)
     return out
@@ -63,6 +71,10 @@ def with_fault(plan: Dict[str, Any], target: Dict[str, Any], point: Dict[str, An
         fault = {"kind": kind, "path": point["path"], "open_k": point["open_k"], "cls": point["cls"], "op": target["op"]}
     elif point.get("type") == "fsop":
         fault = {"kind": kind, "path": point["path"], "fsop": point["fsop"], "call": point["call"], "op": target["op"]}
+        if kind == "fsop_exdev":
+            fault.update(kind="fsop_fail", errno="EXDEV")
+    elif point.get("type") == "alloc":
+        fault = {"kind": kind, "path": "@alloc", "site": point["site"], "call": point["call"], "op": target["op"]}
     else:
         fault = {"kind": kind, "path": point["path"], "open_k": point["open_k"], "call": point["call"], "op": target["op"]}
     sess.setdefault("env", {}).setdefault("faults", []).append(fault)
